@@ -1,11 +1,11 @@
 SPECIFICATION Spec
 CONSTANTS
   Prune = TRUE
-  Dev_h12 = FALSE
-  Dev_h13 = FALSE
-  Dev_t127 = FALSE
-  Dev_mdict = FALSE
-  Dev_dparr = FALSE
+  Dev_h12 = TRUE
+  Dev_h13 = TRUE
+  Dev_t127 = TRUE
+  Dev_mdict = TRUE
+  Dev_dparr = TRUE
   DocIds = {"D1", "D2", "D3", "D4"}
   V2Lens = {40, 128}
   V4Stm = {"RC4", "AES128", "Identity"}
@@ -17,9 +17,9 @@ CONSTANTS
   Pairs <- PairsQuick
   Attempts <- AttemptsQuick
   MaxDepth = 5
-  Emit = FALSE
+  Emit = TRUE
   KnownTags <- AllKnown
-INVARIANTS AsSpecified JudgeTracks EmitInv
+INVARIANTS OnlyKnown JudgeTracks EmitInv
 CONSTRAINT Bound
 VIEW View
 CHECK_DEADLOCK FALSE
